@@ -20,6 +20,7 @@ import (
 	"github.com/aws/aws-sdk-go-v2/service/s3"
 	"github.com/aws/aws-sdk-go-v2/service/s3/types"
 	"github.com/aws/smithy-go"
+	smithyhttp "github.com/aws/smithy-go/transport/http"
 	"github.com/jdillenkofer/pithos/internal/lifecycle"
 	"github.com/jdillenkofer/pithos/internal/sliceutils"
 	"github.com/jdillenkofer/pithos/internal/storage"
@@ -159,7 +160,7 @@ func (rs *s3ClientStorage) PutBucketVersioningConfiguration(ctx context.Context,
 		status = types.BucketVersioningStatusEnabled
 	}
 	_, err := rs.s3Client.PutBucketVersioning(ctx, &s3.PutBucketVersioningInput{Bucket: aws.String(bucketName.String()), VersioningConfiguration: &types.VersioningConfiguration{Status: status}})
-	return err
+	return translateS3Error(err)
 }
 
 func (rs *s3ClientStorage) GetBucketNotificationConfiguration(ctx context.Context, bucketName storage.BucketName) (*storage.BucketNotificationConfiguration, error) {
@@ -309,7 +310,7 @@ func (rs *s3ClientStorage) ListObjects(ctx context.Context, bucketName storage.B
 		return nil, storage.ErrNoSuchBucket
 	}
 	if err != nil {
-		return nil, err
+		return nil, translateS3Error(err)
 	}
 	objects := sliceutils.Map(func(object types.Object) storage.Object {
 		// S3 list responses only carry the checksum type and algorithm, not
@@ -350,7 +351,7 @@ func (rs *s3ClientStorage) ListObjectVersions(ctx context.Context, bucketName st
 		MaxKeys:         aws.Int32(opts.MaxKeys),
 	})
 	if err != nil {
-		return nil, err
+		return nil, translateS3Error(err)
 	}
 
 	versions := []storage.ObjectVersion{}
@@ -472,7 +473,7 @@ func (rs *s3ClientStorage) GetObject(ctx context.Context, bucketName storage.Buc
 			for _, r := range readers {
 				r.Close()
 			}
-			return nil, nil, err
+			return nil, nil, translateS3Error(err)
 		}
 		readers = append(readers, getObjectResult.Body)
 	}
@@ -593,7 +594,7 @@ func (rs *s3ClientStorage) PutObject(ctx context.Context, bucketName storage.Buc
 		if errors.As(err, &apiErr) && apiErr.ErrorCode() == "PreconditionFailed" {
 			return nil, storage.ErrPreconditionFailed
 		}
-		return nil, err
+		return nil, translateS3Error(err)
 	}
 
 	return &storage.PutObjectResult{
@@ -629,18 +630,40 @@ func copySourceValue(srcBucket storage.BucketName, srcKey storage.ObjectKey, sou
 	return value
 }
 
-func translateS3CopyError(err error) error {
+// translateS3Error maps the error a remote S3 backend answered with onto the
+// storage error the caller expects. Errors that have no storage counterpart are
+// returned unchanged.
+func translateS3Error(err error) error {
+	if err == nil {
+		return nil
+	}
+	// A 404 for a key whose current version is a delete marker carries no error
+	// document, only the delete marker headers.
+	var responseErr *smithyhttp.ResponseError
+	if errors.As(err, &responseErr) && responseErr.Response != nil && responseErr.Response.Response != nil &&
+		responseErr.HTTPStatusCode() == http.StatusNotFound && responseErr.Response.Header.Get("x-amz-delete-marker") == "true" {
+		return &storage.CurrentDeleteMarkerError{VersionID: responseErr.Response.Header.Get("x-amz-version-id")}
+	}
 	var apiErr smithy.APIError
 	if errors.As(err, &apiErr) {
 		switch apiErr.ErrorCode() {
 		case "NoSuchBucket":
 			return storage.ErrNoSuchBucket
-		case "NoSuchKey":
+		case "NoSuchKey", "NoSuchVersion":
 			return storage.ErrNoSuchKey
 		case "PreconditionFailed":
 			return storage.ErrPreconditionFailed
+		case "BadDigest":
+			return storage.ErrBadDigest
+		case "InvalidRange":
+			return storage.ErrInvalidRange
 		}
 	}
+	return err
+}
+
+func translateS3CopyError(err error) error {
+	err = translateS3Error(err)
 	var notFoundError *types.NotFound
 	if errors.As(err, &notFoundError) {
 		return storage.ErrNoSuchBucket
@@ -765,7 +788,7 @@ func (rs *s3ClientStorage) DeleteObject(ctx context.Context, bucketName storage.
 		return nil, storage.ErrNoSuchBucket
 	}
 	if err != nil {
-		return nil, err
+		return nil, translateS3Error(err)
 	}
 	return &storage.DeleteObjectResult{VersionID: result.VersionId, IsDeleteMarker: aws.ToBool(result.DeleteMarker)}, nil
 }
@@ -796,7 +819,7 @@ func (rs *s3ClientStorage) DeleteObjects(ctx context.Context, bucketName storage
 		return nil, storage.ErrNoSuchBucket
 	}
 	if err != nil {
-		return nil, err
+		return nil, translateS3Error(err)
 	}
 
 	result := &storage.DeleteObjectsResult{
@@ -864,7 +887,7 @@ func (rs *s3ClientStorage) CreateMultipartUpload(ctx context.Context, bucketName
 		return nil, storage.ErrNoSuchBucket
 	}
 	if err != nil {
-		return nil, err
+		return nil, translateS3Error(err)
 	}
 	return &storage.InitiateMultipartUploadResult{
 		UploadId: storage.MustNewUploadId(*initiateMultipartUploadResult.UploadId),
@@ -897,7 +920,7 @@ func (rs *s3ClientStorage) UploadPart(ctx context.Context, bucketName storage.Bu
 		return nil, storage.ErrNoSuchBucket
 	}
 	if err != nil {
-		return nil, err
+		return nil, translateS3Error(err)
 	}
 	return &storage.UploadPartResult{
 		ETag:              *uploadPartResult.ETag,
@@ -995,7 +1018,7 @@ func (rs *s3ClientStorage) CompleteMultipartUpload(ctx context.Context, bucketNa
 		return nil, storage.ErrNoSuchBucket
 	}
 	if err != nil {
-		return nil, err
+		return nil, translateS3Error(err)
 	}
 	return &storage.CompleteMultipartUploadResult{
 		Location:          *completeMultipartUploadResult.Location,
@@ -1024,7 +1047,7 @@ func (rs *s3ClientStorage) AbortMultipartUpload(ctx context.Context, bucketName 
 		return storage.ErrNoSuchBucket
 	}
 	if err != nil {
-		return err
+		return translateS3Error(err)
 	}
 	return nil
 }
@@ -1046,7 +1069,7 @@ func (rs *s3ClientStorage) ListMultipartUploads(ctx context.Context, bucketName 
 		return nil, storage.ErrNoSuchBucket
 	}
 	if err != nil {
-		return nil, err
+		return nil, translateS3Error(err)
 	}
 
 	uploads := sliceutils.Map(func(upload types.MultipartUpload) storage.Upload {
@@ -1098,7 +1121,7 @@ func (rs *s3ClientStorage) ListParts(ctx context.Context, bucketName storage.Buc
 		return nil, storage.ErrNoSuchBucket
 	}
 	if err != nil {
-		return nil, err
+		return nil, translateS3Error(err)
 	}
 	return &storage.ListPartsResult{
 		BucketName:           storage.MustNewBucketName(*listPartsResult.Bucket),
@@ -1620,7 +1643,7 @@ func (rs *s3ClientStorage) GetObjectTagging(ctx context.Context, bucketName stor
 		return nil, storage.ErrNoSuchKey
 	}
 	if err != nil {
-		return nil, err
+		return nil, translateS3Error(err)
 	}
 
 	tags := map[string]string{}
@@ -1656,7 +1679,7 @@ func (rs *s3ClientStorage) PutObjectTagging(ctx context.Context, bucketName stor
 		return storage.ErrNoSuchKey
 	}
 	if err != nil {
-		return err
+		return translateS3Error(err)
 	}
 	return nil
 }
@@ -1678,7 +1701,7 @@ func (rs *s3ClientStorage) DeleteObjectTagging(ctx context.Context, bucketName s
 		return storage.ErrNoSuchKey
 	}
 	if err != nil {
-		return err
+		return translateS3Error(err)
 	}
 	return nil
 }
